@@ -74,9 +74,11 @@ def run(ctx):
                                   'emd.support.ensure_1d_with_singleton', 'emd.support.ensure_2d'], 'input validation')
 
 
-def rule_shape_classes(ctx, rid):
+def rule_shape_classes(ctx, rid, names=None):
     P = ctx.P
     for name, table in ORACLE.items():
+        if names is not None and name not in names:
+            continue
         fi = P.func('emd.support.' + name)
         x = S('x?')
         ev = Evaluator(P)
@@ -172,11 +174,13 @@ def _layout_only(t, inp):
     return t
 
 
-def rule_layout_only(ctx, rid):
+def rule_layout_only(ctx, rid, names=None):
     """The ensure_* routines hand every array back with its own values: each returned array is its own input seen
     through layout-only operations, whatever the other inputs are (evaluated with two inputs)."""
     P = ctx.P
     for name in ORACLE:
+        if names is not None and name not in names:
+            continue
         fi = P.func('emd.support.' + name)
         x, y = S('x?'), S('y?')
         exits = Evaluator(P).run(fi, args={fi.params[0]: ('list', (x, y)), fi.params[1]: ('list', (C('x'), C('y'))),
